@@ -165,6 +165,9 @@ func genC20(r *rand.Rand, tier string) []Case {
 		if i%20 == 0 {
 			maxLen = 3000
 		}
+		if i%40 == 7 {
+			maxLen = 40000 // stored lengths needing a three-byte varint
+		}
 		if tier == "thorough" && i%500 == 0 {
 			maxLen = 1 << 20
 		}
